@@ -1,7 +1,9 @@
 (* C11 — editing relationship fields keeps them well-formed and matches a list model.
    Statements only; proofs in proofs/RelEditP.v (lists, paths, texts, the pure parts),
    proofs/RelEditStP.v (the store: detach/attach/splice, every operation through handles),
-   proofs/RelEditHistP.v (histories), proofs/RelEditRefuteP.v (witnesses by evaluation).
+   proofs/RelEditHistP.v (histories), proofs/RelEditReparseP.v (the bridge to C10's reader
+   theorem), proofs/RelEditFullP.v (histories with re-read), proofs/RelEditRefuteP.v (witnesses by
+   evaluation).
 
    The model (model/RelEdit.v) is the editing API of debian-control/src/lossless/relations.rs
    over a store of trees with re-based handles (rowan's red layer as the code experiences it);
@@ -27,7 +29,10 @@
      C11_history_from_constructors, C11_history_from_new.  After every step the root register
      holds exactly the constructor-built tree of the list model's field; its structure (read by
      the model of the accessors) is the list model; its text is the canonical rendering, so
-     separators are never duplicated, dangling or fused.
+     separators are never duplicated, dangling or fused.  With identifier texts in the operands
+     the printed text is also proved to read back, strictly and without error, as the list
+     model (C11_history_constructed_reread, through C10_lossless): this is C11_full restricted
+     to constructor-built fields, these eight operations and constructor-built operands.
    * PROVED for ANY children list (any layout, empty entries, substitution variables, error
      nodes): the frame lemmas of the list surgery — Entry::remove / Relation::remove delete the
      node plus adjacent white space and at most one separator token and nothing else;
@@ -36,12 +41,11 @@
      text outside that node alone (C11_frame_subtree); and the store-level effect of
      Entry::remove through a handle at any path of any tree (C11_entry_remove_store).
    * NOT PROVED (covered by the rel-edit stream and its oracle on every run): the history
-     theorem for fields with layouts other than the constructors'; the re-parse clause
-     (text parses back to the model: needs the lexer/grammar lemmas of C10's cone);
-     operands built by parsing and by the builder; Entry::push, Entry::replace,
+     theorem for fields with layouts other than the constructors' (and with it the re-read
+     clause for those layouts); operands built by parsing and by the builder; Entry::push, Entry::replace,
      set_architectures, add_profile inside the history theorem; handles obtained earlier. *)
 From V.model Require Import Base RelLex RelParse RelEdit RelEditSpec.
-From V.proofs Require Import BaseP RelEditP RelEditStP RelEditHistP RelEditRefuteP.
+From V.proofs Require Import BaseP RelEditP RelEditStP RelEditHistP RelEditReparseP RelEditFullP RelEditRefuteP.
 
 (* the whole property, as a statement about a variant of the code (model/RelEditSpec.v) *)
 Definition C11_partial_note : Prop := C11_full fixed.
@@ -67,6 +71,47 @@ Check C11_history_constructed : forall ops f st,
               structure (cfield_tree f') = Ok f' /\
               root_text st' = Ok (render_field f').
 Print Assumptions C11_history_constructed.
+
+(* with identifier texts in the operands (names, versions, qualifiers) and non-empty entries, the printed text also READS BACK — strictly, without error — as the list model (through C10's reader theorem) *)
+Theorem C11_history_constructed_reread : forall ops f st,
+  lfield_ok f = true -> forallb aop_ok ops = true -> hist_in_range f ops = true ->
+  state_with_root st (cfield_tree f) ->
+  let f' := fold_left astep ops f in
+  exists st', run_ops fixed (compile_all ops) st = Ok st' /\
+              state_with_root st' (cfield_tree f') /\
+              root_tree st' = Ok (cfield_tree f') /\
+              structure (cfield_tree f') = Ok f' /\
+              root_text st' = Ok (render_field f') /\
+              exists t'', parse_relaxed (render_field f') true = Ok (t'', 0) /\
+                          relations_from_str (render_field f') = Ok t'' /\
+                          structure t'' = Ok f'.
+Proof. exact history_constructed_full. Qed.
+Check C11_history_constructed_reread : forall ops f st,
+  lfield_ok f = true -> forallb aop_ok ops = true -> hist_in_range f ops = true ->
+  state_with_root st (cfield_tree f) ->
+  let f' := fold_left astep ops f in
+  exists st', run_ops fixed (compile_all ops) st = Ok st' /\
+              state_with_root st' (cfield_tree f') /\
+              root_tree st' = Ok (cfield_tree f') /\
+              structure (cfield_tree f') = Ok f' /\
+              root_text st' = Ok (render_field f') /\
+              exists t'', parse_relaxed (render_field f') true = Ok (t'', 0) /\
+                          relations_from_str (render_field f') = Ok t'' /\
+                          structure t'' = Ok f'.
+Print Assumptions C11_history_constructed_reread.
+
+Theorem C11_reparse_constructed : forall f, lfield_ok f = true ->
+  exists t, parse_relaxed (render_field f) true = Ok (t, 0) /\
+            relations_from_str (render_field f) = Ok t /\
+            text t = render_field f /\
+            structure t = Ok f.
+Proof. exact reparse_constructed. Qed.
+Check C11_reparse_constructed : forall f, lfield_ok f = true ->
+  exists t, parse_relaxed (render_field f) true = Ok (t, 0) /\
+            relations_from_str (render_field f) = Ok t /\
+            text t = render_field f /\
+            structure t = Ok f.
+Print Assumptions C11_reparse_constructed.
 
 (* the same from Relations::from(vec![Entry::from(vec![Relation::new(..), ..]), ..]) *)
 Theorem C11_history_from_constructors : forall ops f,
